@@ -69,4 +69,6 @@ def classify(case):
         ks.append("K14")
     if "HC" in hz:
         ks.append("K15")
+    if "HQ" in hz:
+        ks.append("K19")
     return hz, ks
